@@ -172,6 +172,14 @@ func drawPluginCase(rt *rapid.T, mode string) *PluginCase {
 		case cmd == "get-plugin-metadata" || (cmd == "describe-key" && rapid.IntRange(0, 2).Draw(rt, "honestDescribe") != 0):
 			// the flows need a usable plugin to get to the interesting answers
 			c.Outputs[cmd] = Out{Stdout: honestOutput(cmd, envelopeCap), Recipe: "valid"}
+		case rapid.IntRange(0, 2).Draw(rt, "degenerateReply") == 0:
+			// exit 0 with a degenerate but well-formed JSON value: the flow gets past the process and
+			// decoding layers and has to cope with an empty / null answer
+			s := rp.Pick(rt, "degenerate", "null", "null", "{}", "[]", `""`, "0", "true", " null\n", `{"verificationResults":null}`,
+				`{"verificationResults":{"SIGNATURE_VERIFIER.TRUSTED_IDENTITY":null,"SIGNATURE_VERIFIER.REVOCATION_CHECK":null}}`,
+				`{"verificationResults":{},"processedAttributes":null}`, `{"keyId":null,"keySpec":null}`, `{"signature":null,"certificateChain":null}`,
+				`{"signatureEnvelope":null,"signatureEnvelopeType":null}`, `{"certificateChain":[null]}`)
+			c.Outputs[cmd] = Out{Stdout: []byte(s), Recipe: "degenerate"}
 		default:
 			c.Outputs[cmd] = drawOut(rt, cmd, envelopeCap)
 		}
@@ -564,8 +572,8 @@ func TestC12_PluginOutputCLI(t *testing.T) {
 	if replayPlugin(t, rec) {
 		return
 	}
-	rp.Check(t, 160, 4000, property(func(rt *rapid.T) {
-		runPluginCase(rt, rec, drawPluginCase(rt, rp.Pick(rt, "mode", "cli", "cli", "cli-signer", "cli-verifier")))
+	rp.Check(t, 480, 8000, property(func(rt *rapid.T) {
+		runPluginCase(rt, rec, drawPluginCase(rt, rp.Pick(rt, "mode", "cli", "cli-signer", "cli-signer", "cli-verifier", "cli-verifier")))
 	}))
 }
 
